@@ -3,7 +3,8 @@
    structural truncation, tag changes; over an abstract streaming MAC whose update is a monoid
    action on the states reachable from its initial state, then for the SM3-HMAC of coq/Hash. *)
 From GmVerif Require Import Base.ListX Base.Bytes Hash.MD Hash.SM3 Hash.SM3Proofs Hash.Hmac Hash.HmacProofs
-  Hash.Instances Hash.C03Lemmas Cipher.SM4 Cipher.GF128 Cipher.GCM Cipher.Aead Cipher.AeadProofs Cipher.GCMProofs.
+  Hash.Instances Hash.C03Lemmas Cipher.SM4 Cipher.GF128 Cipher.GCM Cipher.Aead Cipher.AeadProofs Cipher.GCMProofs
+  Cipher.CCMProofs.
 Require Import Lia ZifyN ZifyNat ZifyBool.
 Ltac Zify.zify_post_hook ::= Z.div_mod_to_equations.
 Local Open Scope nat_scope.
@@ -320,4 +321,141 @@ Proof.
   split; [vm_compute; discriminate|]. split; [reflexivity|].
   split; [vm_compute; reflexivity|]. split; [vm_compute; reflexivity|].
   vm_compute. discriminate.
+Qed.
+
+(* ===================== strict PKCS #7 (sm4_cbc_padding_decrypt since commit 75d04f0) ===================== *)
+(* the decision rule of sm4_cbc_decrypt_finish, spelled out *)
+Theorem cbc_dec_finish_ok_iff D (c : cbc_ctx) t :
+  cbc_dec_finish D c = Ok t <->
+  length (cb_buf c) = 16 /\
+  let p := xor_bytes (D (cb_buf c)) (cb_iv c) in
+  let pad := nth 15 p 0%N in
+  (1 <= pad <= 16)%N /\
+  (forall b, In b (skipn (16 - N.to_nat pad) p) -> b = pad) /\
+  t = firstn (16 - N.to_nat pad) p.
+Proof.
+  unfold cbc_dec_finish.
+  destruct (length (cb_buf c) =? 16) eqn:El; cbn [negb].
+  2:{ apply Nat.eqb_neq in El. split; [discriminate|intros [H _]; contradiction]. }
+  apply Nat.eqb_eq in El. cbn zeta.
+  set (p := xor_bytes (D (cb_buf c)) (cb_iv c)). set (pad := nth 15 p 0%N).
+  destruct ((pad <? 1)%N || (16 <? pad)%N) eqn:Er.
+  { split; [discriminate|]. intros (_ & Hr & _). apply orb_true_iff in Er.
+    destruct Er as [Er|Er]; apply N.ltb_lt in Er; lia. }
+  apply orb_false_iff in Er. destruct Er as [E1 E2]. apply N.ltb_ge in E1. apply N.ltb_ge in E2.
+  unfold pad_bytes_ok.
+  destruct (forallb (fun b => (b =? pad)%N) (skipn (16 - N.to_nat pad) p)) eqn:Ef; cbn [negb].
+  - rewrite forallb_forall in Ef. split.
+    + intros H; inversion H; subst. split; [exact El|]. split; [lia|]. split; [|reflexivity].
+      intros b Hb. apply N.eqb_eq, Ef, Hb.
+    + intros (_ & _ & _ & ->). reflexivity.
+  - split; [discriminate|]. intros (_ & _ & Hall & _).
+    assert (forallb (fun b => (b =? pad)%N) (skipn (16 - N.to_nat pad) p) = true); [|congruence].
+    apply forallb_forall. intros b Hb. apply N.eqb_eq, Hall, Hb.
+Qed.
+
+(* decrypt . encrypt = id for CBC with strict padding removal, whole-message form *)
+Section CbcRoundTrip.
+  Variable E D : list N -> list N.
+  Hypothesis E_len : forall x, length (E x) = 16.
+  Hypothesis E_ok : forall x, bytes_ok (E x) = true.
+  Hypothesis DE : forall x, blk_ok x -> D (E x) = x.
+
+  Lemma cbc_dec_enc_blocks : forall k iv m, length m = 16 * k -> blk_ok iv -> bytes_ok m = true ->
+    length (snd (cbc_enc_blocks E k iv m)) = 16 * k /\
+    snd (cbc_dec_blocks D k iv (snd (cbc_enc_blocks E k iv m))) = m.
+  Proof.
+    induction k as [|k IH]; intros iv m Hm Hiv Hok.
+    - destruct m; [split; reflexivity|cbn in Hm; lia].
+    - cbn [cbc_enc_blocks].
+      set (x := xor_bytes (firstn 16 m) iv).
+      assert (Hx : blk_ok x).
+      { destruct Hiv as [Hl Ho]. split.
+        - unfold x. rewrite xor_bytes_length, firstn_length. lia.
+        - apply CCMProofs.bytes_ok_xor; [apply CCMProofs.bytes_ok_firstn, Hok|exact Ho]. }
+      destruct (IH (E x) (skipn 16 m)) as [Hl Hd];
+        [rewrite skipn_length; lia|split; [apply E_len|apply E_ok]|apply CCMProofs.bytes_ok_skipn, Hok|].
+      destruct (cbc_enc_blocks E k (E x) (skipn 16 m)) as [iv' r] eqn:Er. cbn [snd] in *.
+      split; [rewrite app_length, E_len; lia|].
+      cbn [cbc_dec_blocks].
+      rewrite firstn_app, skipn_app, E_len, Nat.sub_diag, firstn_O, skipn_O, app_nil_r.
+      rewrite firstn_all2, skipn_all2 by (rewrite E_len; lia). cbn [app].
+      destruct (cbc_dec_blocks D k (E x) r) as [iv'' r'] eqn:Ed. cbn [snd] in *.
+      rewrite DE by exact Hx. unfold x.
+      rewrite xor_bytes_invol by (destruct Hiv as [Hivl _]; rewrite firstn_length; lia).
+      rewrite Hd. apply firstn_skipn.
+  Qed.
+
+  Lemma bytes_ok_repeat b n : (b < 256)%N -> bytes_ok (repeat b n) = true.
+  Proof.
+    intros Hb. unfold bytes_ok. induction n as [|n IH]; [reflexivity|]. cbn [repeat forallb].
+    rewrite IH. apply N.ltb_lt in Hb. rewrite Hb. reflexivity.
+  Qed.
+
+  Lemma nth_repeat_in (a d : N) : forall n i, i < n -> nth i (repeat a n) d = a.
+  Proof. induction n as [|n IH]; intros i Hi; [lia|]. destruct i; [reflexivity|]. cbn [repeat nth]. apply IH. lia. Qed.
+
+  Theorem cbc_pad_dec_enc iv p : blk_ok iv -> bytes_ok p = true ->
+    cbc_pad_decrypt D true iv (cbc_pad_encrypt E iv p) = Ok p.
+  Proof.
+    intros Hiv Hop. unfold cbc_pad_encrypt.
+    set (padn := 16 - length p mod 16). set (k := length p / 16 + 1).
+    set (m := p ++ repeat (N.of_nat padn) padn).
+    assert (Hr : length p mod 16 < 16) by (apply Nat.mod_upper_bound; lia).
+    assert (Hdm : length p = 16 * (length p / 16) + length p mod 16) by (apply Nat.div_mod; lia).
+    assert (Hpn : 1 <= padn <= 16) by (unfold padn; lia).
+    assert (Hm : length m = 16 * k) by (unfold m, k; rewrite app_length, repeat_length; unfold padn; lia).
+    assert (Hom : bytes_ok m = true).
+    { unfold m. rewrite CCMProofs.bytes_ok_app, Hop, bytes_ok_repeat by lia. reflexivity. }
+    destruct (cbc_dec_enc_blocks k iv m Hm Hiv Hom) as [Hl Hd].
+    set (c := snd (cbc_enc_blocks E k iv m)) in *.
+    unfold cbc_pad_decrypt. rewrite Hl.
+    replace (16 * k =? 0) with false by (symmetry; apply Nat.eqb_neq; unfold k; lia).
+    replace ((16 * k) mod 16 =? 0) with true by (symmetry; apply Nat.eqb_eq; rewrite Nat.mul_comm; apply Nat.mod_mul; lia).
+    cbn [orb negb]. replace (16 * k / 16) with k by (rewrite Nat.mul_comm, Nat.div_mul; lia).
+    rewrite Hd.
+    assert (Hlast : nth (16 * k - 1) m 0%N = N.of_nat padn).
+    { unfold m. rewrite app_nth2 by lia. apply nth_repeat_in. unfold k, padn in *. lia. }
+    rewrite Hlast.
+    replace ((N.of_nat padn <? 1)%N || (16 <? N.of_nat padn)%N) with false
+      by (symmetry; apply orb_false_iff; split; apply N.ltb_ge; lia).
+    rewrite Nat2N.id.
+    assert (Hsk : skipn (16 - padn) (skipn (16 * k - 16) m) = repeat (N.of_nat padn) padn).
+    { rewrite skipn_skipn_nat. replace (16 * k - 16 + (16 - padn)) with (length p) by (unfold k, padn in *; lia).
+      unfold m. rewrite skipn_app, Nat.sub_diag, skipn_all. reflexivity. }
+    unfold pad_bytes_ok. rewrite Nat2N.id, Hsk.
+    replace (forallb (fun b => (b =? N.of_nat padn)%N) (repeat (N.of_nat padn) padn)) with true.
+    2:{ symmetry. apply forallb_forall. intros b Hb. apply repeat_spec in Hb. subst. apply N.eqb_refl. }
+    cbn [andb negb]. f_equal.
+    replace (16 * k - padn) with (length p) by (unfold k, padn in *; lia).
+    unfold m. rewrite firstn_app, Nat.sub_diag, firstn_all, firstn_O, app_nil_r. reflexivity.
+  Qed.
+End CbcRoundTrip.
+
+(* ---- SM4-CBC+SM3-HMAC, whole-message form: decryption accepts what encryption produced ---- *)
+From GmVerif Require Import Cipher.SM4Proofs.
+Local Strategy 1000 [sm4_encrypt_block sm4_decrypt_block sm4_crypt_block].
+
+Lemma sm3_hmac_spec_length k m : length (sm3_hmac_spec k m) = 32.
+Proof. unfold sm3_hmac_spec, hmac_spec. apply sm3_len. Qed.
+
+Theorem sm4_cbc_hmac_spec_dec_accepts_enc key iv aad p :
+  length key = 48 -> blk_ok iv -> bytes_ok p = true ->
+  cbc_hmac_spec_decrypt key iv aad (cbc_hmac_spec_encrypt key iv aad p) = Ok p.
+Proof.
+  intros Hk Hiv Hp. unfold cbc_hmac_spec_decrypt, cbc_hmac_spec_encrypt.
+  set (k1 := firstn 16 key). set (c := cbc_pad_encrypt (sm4E k1) iv p).
+  set (mac := sm3_hmac_spec (skipn 16 key) (aad ++ c)).
+  assert (Hmac : length mac = 32) by apply sm3_hmac_spec_length.
+  assert (Hk1 : length k1 = 16) by (unfold k1; rewrite firstn_length; lia).
+  rewrite app_length, Hmac.
+  replace (length c + 32 <? 32) with false by (symmetry; apply Nat.ltb_ge; lia).
+  replace (length c + 32 - 32) with (length c) by lia.
+  rewrite firstn_app, skipn_app, Nat.sub_diag, firstn_all, skipn_all, firstn_O, skipn_O, app_nil_r.
+  cbn [app]. unfold c.
+  rewrite (cbc_pad_dec_enc (sm4E k1) (sm4D k1)); try assumption.
+  - fold c. fold mac. replace (bytes_eqb mac mac) with true by (symmetry; apply bytes_eqb_eq; reflexivity). reflexivity.
+  - intros x. apply sm4_encrypt_block_length.
+  - intros x. apply sm4_encrypt_block_ok.
+  - intros x [Hl Ho]. unfold sm4D, sm4E. apply sm4_dec_enc; assumption.
 Qed.
